@@ -29,6 +29,20 @@ theorem C21_lookup_innermost (w : World ν) (kids : Table ν) (st : SymTab ν) (
     (resolveStmts w true kids st ss).2 = (specStmts w kids st.flatten ss).2 :=
   (resolveStmts_refines w kids st st.flatten (lookup_eq_get_flatten st) ss).1
 
+/-- Sibling scopes: every arm of a `match` (and each branch of an `if`/`else`) is resolved from the
+    table of the whole statement — what an earlier arm's pattern binds is not visible in a later
+    arm — and the statement leaves the table unchanged.  (`C21_lookup_innermost` covers these
+    forms: the textbook semantics `specArms` gives each arm the environment of the match.) -/
+theorem C21_arms_independent (w : World ν) (kids : Table ν) (st : SymTab ν)
+    (arm : Option (ν × Nat) × List (Stmt ν)) (rest : List (Option (ν × Nat) × List (Stmt ν))) :
+    resolveArms w true kids st (arm :: rest) =
+      resolveArms w true kids st [arm] ++ resolveArms w true kids st rest ∧
+    (resolveStmt w true kids st (.marms (arm :: rest))).1 = st := by
+  obtain ⟨b, body⟩ := arm
+  cases b with
+  | none => simp [resolveArms, resolveStmt]
+  | some xb => obtain ⟨x, id⟩ := xb; simp [resolveArms, resolveStmt]
+
 /-- The names visible at file level are exactly: builtins, the prelude, the file's own
     declarations and what each `use` item lets through — all of the imported file's names, only
     the listed ones, all but the `except` list, or just the `as` prefix. -/
@@ -183,6 +197,11 @@ example : resolveTop w2 true 0 =
 example : (effective w2 0).clashes = [] := by decide
 example : (effective w2 1).clashes = [1, 22] := by decide    -- supplied by `use main` and again by `use main except (2)`
 example : lookup (fileSymTab w2 0) 7 = some (Decl.alias 0 7 1) := by decide
+
+/-- an earlier arm binds `1`, the later arm's `1` is the outer `let` (id 50), not the arm binder 60 -/
+example : (resolveStmts w2 true [] [[]] [.letv 1 50, .marms [(some (1, 60), [.use 1]), (none, [.use 1]), (some (2, 61), [.use 1, .use 2])],
+      .ifelse [.letv 1 62, .use 1] [.use 1]]).2 =
+    [.to (.loc 60), .to (.loc 50), .to (.loc 50), .to (.loc 61), .to (.loc 62), .to (.loc 50)] := by decide
 
 /-- the shape `use f except Name` with an own enum `Name`: the arm `Name.V` means the own enum;
     a variant that only the excluded enum has does not resolve -/
